@@ -143,7 +143,7 @@ def run_container(prop, kind, tier, seed, cc=False, own_clauses=None, foreign=CC
             per_origin[origin] = per_origin.get(origin, 0) + 1
         t1 = time.time()
         for n, lst in by_n.items():
-            fams = ("ident", "sparse", "str", "zero", "big", "neg", "long")
+            fams = ("ident", "sparse", "str", "zero", "big", "neg", "long", "cat", "scat")
             traces, meta = C.replay_many(kind, weighted, [o for o, _ in lst], n, families=fams,
                                          seed=seed + n, full=full, cc=cc, copies=True, queries=queries,
                                          plan=plan, exhaustive_derive=exhaustive_derive)
